@@ -710,6 +710,7 @@ func (r *Runner) probeDirect(job Job, e *Exec, pcs []*Term, jr *JobResult) {
 	res, _, _ := r.L.RunNative(job.Dir, []string{path}, false)
 	r.L.watchdog = ""
 	r.L.wdMu.Unlock()
+	os.Remove(path)
 	if len(res) == 1 && res[0].Hang {
 		jr.Hangs = append(jr.Hangs, rf)
 	}
